@@ -144,6 +144,33 @@ def probe_constants(info):
             out.update({"enc_short_max": short_max, "enc_short_max2": short_max, "enc_short_width": widths["s"], "enc_long_width": widths["l"],
                         "enc_flag_more": flags["more_s"] ^ flags["last_s"], "enc_flag_long": flags["last_l"] ^ flags["last_s"],
                         "enc_more_on_all_but_last": 1 if (flags["more_s"] != flags["last_s"] and flags["more_l"] != flags["last_l"]) else 0})
+    cmdk = {"cmd_short_max", "cmd_flag_long", "cmd_flag_short", "cmd_long_width"}
+    if miss & cmdk:
+        # READY of a DEALER with identities of 190..240 bytes: the body crosses every plausible short/long boundary
+        cases = ["q%d ready DEALER r%d.41" % (n, n) for n in range(190, 241)]
+        try:
+            res = run_impl(cases, "probe")
+        except Exception:
+            res = {}
+        shorts, longs, ok = {}, {}, True
+        for n in range(190, 241):
+            h = res.get("q%d" % n, "")
+            try:
+                b = bytes.fromhex(h)
+            except ValueError:
+                ok = False
+                break
+            if len(b) >= 2 and b[1] == len(b) - 2:
+                shorts[len(b) - 2] = b[0]
+            else:
+                w = next((w for w in (2, 4, 8) if len(b) > 1 + w and int.from_bytes(b[1:1 + w], "big") == len(b) - 1 - w), None)
+                if w is None:
+                    ok = False
+                    break
+                longs[len(b) - 1 - w] = (b[0], w)
+        if ok and shorts and longs and max(shorts) < min(longs) and len(set(shorts.values())) == 1 and len(set(longs.values())) == 1:
+            fl, w = next(iter(longs.values()))
+            out.update({"cmd_short_max": max(shorts), "cmd_flag_short": next(iter(shorts.values())), "cmd_flag_long": fl, "cmd_long_width": w})
     return {k: v for k, v in out.items() if k in miss}
 
 
